@@ -53,7 +53,7 @@ def dump_coq(d, per, sclean):
     ptv = coq_list(["(%s, %s)" % (coq_z(code(v["db"])), coq_list([
         "{| pt_owner := %s; pt_status := %s; pt_ver := %s |}" % (coq_z(p["owner"]), coq_z(p["status"]), coq_z(p["ver"])) for p in v["pts"]]))
         for v in d["ptview"]])
-    return ("{| dbs := %s; pols := %s; nodes := %s; ptview := %s; ptnum := %s; ptper := %s; sclean := %s; max_node := %s; max_sg := %s; "
+    return ("{| dbs := %s; pols := %s; nodes := %s; ptview := %s; ptnum := %s; ptper := %s; sclean := %s; clampst := false; max_node := %s; max_sg := %s; "
             "max_sh := %s; max_mst := %s; max_ig := %s; max_ix := %s; max_conn := %s |}" % (
                 coq_list(dbs), coq_list(pols), nodes, ptv, coq_z(d["ptnum"]), coq_z(per), coq_bool(sclean), coq_z(d["max_node"]),
                 coq_z(d["max_sg"]), coq_z(d["max_sh"]), coq_z(d["max_mst"]), coq_z(d["max_ig"]), coq_z(d["max_ix"]), coq_z(d["max_conn"])))
@@ -128,8 +128,10 @@ def case_coq(cs):
     return "(%s, %s, %s, %s)" % (coq_z(cs["ptper"]), coq_bool(cs["sclean"]), coq_bool(modelled), coq_list(steps)), modelled
 
 
-VERDICT_RE = re.compile(r"v_cur\s*:=\s*\(?(-?\d+)\)?;\s*v_clip\s*:=\s*\(?(-?\d+)\)?;\s*v_clear\s*:=\s*\(?(-?\d+)\)?;\s*"
-                        r"v_rep\s*:=\s*\(?(-?\d+)\)?;\s*v_wf\s*:=\s*\[(.*?)\]", re.S)
+VERDICT_RE = re.compile(r"v_match\s*:=\s*\[(.*?)\];\s*v_wf\s*:=\s*\[(.*?)\]", re.S)
+# (clip, cleardef, clamp) in the order of Corr.variants: new groups clipped to their neighbours / dropping the default policy
+# clears the default name / group starts clamped to MinNanoTime
+VARIANTS = ["cur", "clip", "clear", "clip+clear", "clamp", "clip+clamp", "clear+clamp", "rep"]
 
 WF_KINDS = {"overlap", "unaligned", "unsorted", "dup-id", "id-over-counter", "dangling-index", "dangling-owner", "default-missing",
             "ptview-size", "empty-span"}
@@ -267,12 +269,14 @@ def main(ck):
             ck.broken.append("model evaluation failed on shard %d: %s" % (idx, o[-600:]))
             verdicts += [None] * want
             continue
-        for a, b, c_, d, wf in vs:
-            verdicts.append({"cur": int(a), "clip": int(b), "clear": int(c_), "rep": int(d),
-                             "wf": [int(x) for x in re.findall(r"\d+", wf)]})
+        for mt, wf in vs:
+            nums = [int(x) for x in re.findall(r"-?\d+", mt)]
+            v = {name: nums[k] for k, name in enumerate(VARIANTS)}
+            v["wf"] = [int(x) for x in re.findall(r"\d+", wf)]
+            verdicts.append(v)
 
     # ---- which variant does the working tree implement?
-    variants = ["cur", "clip", "clear", "rep"]
+    variants = list(VARIANTS)
     alive = set(variants)
     first_bad = {}
     validated = 0
